@@ -756,6 +756,39 @@ func (env *Env) callExpr(e *ECall) V {
 		argc(1)
 		v := env.eval(e.Args[0])
 		return boolV(and(sx(">=", v.T[0], "0"), sx("<", v.T[0], env.cur.ac)))
+	case "holdsview":
+		// holdsview(p, b): some field of the struct p points to whose type is a byte slice shares its backing array with b.
+		// The disjunction ranges over the fields the struct type has NOW, so a byte-slice field added later is covered
+		// without touching the contract (separation clauses of the decoders, C06).
+		argc(2)
+		p, b := env.eval(e.Args[0]), env.eval(e.Args[1])
+		pt, ok := p.Ty.Underlying().(*types.Pointer)
+		if !ok {
+			panic(specErr("holdsview: first argument must be a pointer to a struct"))
+		}
+		stt, ok := pt.Elem().Underlying().(*types.Struct)
+		if !ok {
+			panic(specErr("holdsview: first argument must be a pointer to a struct"))
+		}
+		loc := fc.locOf(p)
+		var alts []string
+		for i := 0; i < stt.NumFields(); i++ {
+			ft := stt.Field(i).Type()
+			sl, ok := ft.Underlying().(*types.Slice)
+			if !ok {
+				continue
+			}
+			if bt, ok := sl.Elem().Underlying().(*types.Basic); !ok || bt.Kind() != types.Uint8 {
+				continue
+			}
+			fl := &Loc{Kind: locField, S: loc.S, Pre: loc.Pre + fmt.Sprintf("f%d_", i), Ref: loc.Ref, Ty: ft}
+			fv := fc.load(env.cur, fl)
+			alts = append(alts, and(eq(fv.T[0], b.T[0]), not(eq(fv.T[0], "0"))))
+		}
+		if len(alts) == 0 {
+			return boolV("false")
+		}
+		return boolV(or(alts...))
 	case "samebase", "aliases":
 		argc(2)
 		a, b := env.eval(e.Args[0]), env.eval(e.Args[1])
@@ -1186,7 +1219,14 @@ func (fc *FnCtx) localAt(b *ssa.BasicBlock, name string) (V, bool) {
 				continue
 			}
 			if blk == b {
-				continue // header's own refs come after the cut point
+				// a loop header's own refs come after the cut point; in the middle of a block that is being executed
+				// (call-site clauses) the refs executed so far are visible
+				if fc.inBlockLocals && fc.curBlock == b {
+					if _, done := fc.vals[dr.X]; done {
+						best, bestBlock = dr.X, blk
+					}
+				}
+				continue
 			}
 			if bestBlock == nil || bestBlock.Dominates(blk) {
 				best, bestBlock = dr.X, blk
